@@ -304,6 +304,9 @@ func (h *H) macros(n int) {
 		if i%2 == 0 {
 			h.oneControl(i)
 		}
+		if i%3 == 0 {
+			h.oneNested(i)
+		}
 	}
 }
 
@@ -608,5 +611,133 @@ func (h *H) oneMacro(idx int) {
 			expected = runProg(envH, dH, ph)
 		}
 		h.out.Case("call|"+expected+"|via-macro|"+esc(m.defSrc())+"|"+pm+"|"+ph, actual, nontrivial, "site-via-macro")
+	}
+}
+
+// oneNested: what the macro body's interpreter (the duplicate) shares with the caller.  The
+// body of `outer` uses, while it RUNS, other macros in argument position of an unquoted
+// compound expression (call arguments are compiled at run time, inside the duplicate), nested
+// twice, under cond, spliced; another macro at statement level of the body; a user function; a
+// macro defined LATER than outer; and a macro that the body itself defines and the expansion
+// then calls in the caller.  rho of the unquoted expression is known by construction
+// (arithmetic on the literal argument); the expansion is compared with model, specification and
+// hand substitution (mac) and the call with the hand-written form at every site (call).
+func (h *H) oneNested(idx int) {
+	r := h.rng
+	k1, k2, k3, a := int64(1+r.Intn(9)), int64(2+r.Intn(5)), int64(r.Intn(20)), int64(r.Intn(10))
+	inner := fmt.Sprintf("(defmac inner [x] ^(+ ~x %d))", k1)
+	helper := fmt.Sprintf("(defn helper [x] (* x %d))", k2)
+	y := vy("y")
+	in := func(x *V) *V { return vl(vy("inner"), x) }
+	var defs []string
+	var body *T
+	var outer, name string
+	var e *V     // the unquoted expression
+	var ev *V    // its value in the macro's scope
+	handSrc := "" // the fully written-out form when the expansion itself is a macro call
+	switch fam := r.Intn(7); fam {
+	case 0, 5:
+		e, ev = vl(vy("+"), vi(k3), in(y)), vi(k3+a+k1)
+		body = tlist(tl(vy("list")), tu(e))
+		name = "arg-position"
+		if fam == 5 {
+			name = "defined-later"
+		}
+	case 1:
+		e, ev = vl(vy("list"), in(y), in(in(y))), vl(vi(a+k1), vi(a+2*k1))
+		body = tlist(tl(vy("list")), tl(vi(0)), tsp(e))
+		name = "nested-spliced"
+	case 2:
+		v := int64(0)
+		if a+k1 > k3 {
+			v = 100 + k1
+		}
+		e, ev = vl(vy("cond"), vl(vy(">"), in(y), vi(k3)), in(vi(100)), vi(0)), vi(v)
+		body = tarr(tu(e), tu(y))
+		name = "under-cond"
+	case 3:
+		e, ev = vy("t"), vi(a+k1)
+		body = tlist(tl(vy("list")), tu(e), tl(vi(k3)))
+		outer = "(defmac outer [y] (def t (inner y)) ^" + body.Src(true) + ")"
+		name = "statement-level"
+	case 4:
+		e, ev = vl(vy("+"), vi(1), vl(vy("helper"), y)), vi(1+a*k2)
+		body = tlist(tl(vy("list")), tu(e))
+		name = "user-function"
+	default:
+		e, ev = y, vi(a)
+		body = tlist(tl(vy("helper9")), tu(y))
+		outer = fmt.Sprintf("(defmac outer [y] (defmac helper9 [x] ^(* ~x %d)) ^%s)", k2, body.Src(true))
+		handSrc = fmt.Sprintf("(* %d %d)", a, k2)
+		name = "macro-defined-by-body"
+	}
+	if outer == "" {
+		outer = "(defmac outer [y] ^" + body.Src(true) + ")"
+	}
+	if name == "defined-later" {
+		defs = []string{helper, outer, inner}
+	} else {
+		defs = []string{inner, helper, outer}
+	}
+	callSrc := fmt.Sprintf("(outer %d)", a)
+	hand := body.HandSubst(func(x *V) *V {
+		if x.Tok() == e.Tok() {
+			return ev
+		}
+		if x.Tok() == y.Tok() {
+			return vi(a)
+		}
+		return nil
+	})
+	if handSrc == "" {
+		handSrc = hand.Src()
+	}
+	setup := func(withMacros bool) (*zygo.Zlisp, *depthRec) {
+		env := newEnv()
+		h.envN++
+		d := &depthRec{}
+		d.install(env)
+		all := []string{"(def g0 11)", "(def gl (list 1 2 3))", "(def a0 3)", "(def w0 40)", "(def w1 50)"}
+		if withMacros {
+			all = append(all, defs...)
+		}
+		for _, s := range all {
+			lib.Eval(env, s, budget)
+		}
+		return env, d
+	}
+	envM, dM := setup(true)
+	h.env, h.rho = envM, map[string]string{}
+	vtok := "yPARSE-ERROR"
+	if x, ok := h.parseRaw("^" + body.Src(true)); ok {
+		if arg, ok := sqArg(x); ok {
+			vtok = Canon(arg).Tok()
+		}
+	}
+	rx := lib.Eval(envM, "(macexpand "+callSrc+")", budget)
+	etok := "ERR"
+	if rx.Class == lib.OutValue {
+		etok = "NOT-QUOTED " + Canon(rx.Val).Tok()
+		if p, ok := rx.Val.(*zygo.SexpPair); ok {
+			if s, ok := p.Head.(*zygo.SexpSymbol); ok && s.Name() == "quote" {
+				etok = Canon(p.Tail).Tok()
+			}
+		}
+	} else if rx.Class == lib.OutPanic {
+		etok = fmt.Sprintf("PANIC %v", rx.Panic)
+	}
+	if d, _, _, _ := envM.VerifDepths(); d != 0 {
+		etok += fmt.Sprintf(" LEFT-%d", d)
+		envM.Clear()
+	}
+	binds := "|" + e.Tok() + " => " + ev.Tok()
+	src := strings.Join(defs, " ;; ")
+	h.out.Case("mac|"+src+" ;; (macexpand "+callSrc+")|y|"+body.Tok()+"|"+vtok+"|"+vi(a).Tok()+binds,
+		"E="+etok+" H="+hand.Tok(), true, "macro", "nested-"+name)
+	envH, dH := setup(false)
+	for _, s := range sites {
+		actual := runProg(envM, dM, s.prog(callSrc))
+		expected := runProg(envH, dH, s.prog(handSrc))
+		h.out.Case("call|"+expected+"|"+s.name+"|"+src+"|"+s.prog(callSrc)+"|"+s.prog(handSrc), actual, true, "site-"+s.name, "nested-"+name)
 	}
 }
